@@ -41,21 +41,20 @@ theorem complex_center_crop_size_eq (n s : Int) : complex_center_crop_size n s =
   simp only [complex_center_crop_size] <;> bridge_arith
 
 theorem pad_tensor_before_eq (t i : Int) : pad_tensor_before t i = padBefore t i := by
-  simp only [pad_tensor_before, padBefore]
-  bridge_arith
+  simp only [pad_tensor_before, padBefore] <;> bridge_arith
 
 theorem pad_tensor_after_eq (t i : Int) : pad_tensor_after t i = padAfter t i := by
-  simp only [pad_tensor_after, padAfter, padBefore]
-  bridge_arith
+  simp only [pad_tensor_after, padAfter, padBefore] <;> bridge_arith
 
-/-- the flat `F.pad` list: per axis `(left, right) = (before, after)` after the reversal -/
+/-- the flat `F.pad` list: per axis `(left, right) = (before, after)`, last axis first — however the source builds it
+(pairs collected first-to-last and the list reversed, or pairs visited last-to-first): the reversals are normalised here
+(`reverse ∘ flatMap = flatMap-on-reversed ∘ reverse`), the per-axis arithmetic is closed by `omega` -/
 theorem pad_tensor_pad_list_eq (dims : List (Int × Int)) :
     pad_tensor_pad_list dims = padPairs false dims := by
   unfold pad_tensor_pad_list padPairs
-  congr 2
-  funext ⟨t, i⟩
-  simp only [padAfter, padBefore, Bool.false_eq_true, if_false, List.cons.injEq, and_true]
-  bridge_arith
+  simp only [List.reverse_flatMap, List.reverse_reverse, Function.comp_def, List.reverse_cons, List.reverse_nil,
+    List.nil_append, List.cons_append, Bool.false_eq_true, if_false] <;>
+  (try (congr 1 <;> try (funext ⟨t, i⟩ <;> simp only [padAfter, padBefore, List.cons.injEq, and_true] <;> bridge_arith)))
 
 /-! `crop_to_bbox` offsets and slice bounds (element-wise reading of the numpy vector code) -/
 theorem bbox_l_offset_eq (n c s : Int) : bbox_l_offset n c s = bboxLOff c := by
